@@ -245,15 +245,15 @@ def run(ctx):
         'corpus_cases': len(corpus),
         'xml_test_inputs': len(xml),
         'correspondence_disagreements': {'layer1': nd1, 'layer2': nd2, 'layer3': nd3},
-        'layers': {'1 tokenizer/options/writer of annotations': 'modelled, proved (C10_ann_roundtrip_partial, '
-                   'C10_ann_continuation; empty option values: C10_ann_roundtrip_counterexample), corresponded',
+        'layers': {'1 tokenizer/options/writer of annotations': 'modelled, proved (C10_ann_roundtrip incl. empty option '
+                   'values, C10_ann_continuation), corresponded',
                    '2 line matchers': 'modelled, shape-pinned (C10_pattern_shapes), corresponded; C10_asterisk_strip, '
                    'C10_indent_lines',
                    '3 block state machine / layouts / block writer': 'modelled (parseBlock, writeBlock), corresponded on '
                    'every block-level text; proved for the grammar fragment of Spec/BlockGrammar.lean '
                    '(C10_line_endings, C10_parse_render_partial, C10_layout_indep_partial, C10_write_parse_partial; '
-                   'witnesses C10_write_parse_*_counterexample); the full grammar is validated on the real code by '
-                   'the statement oracles'},
+                   'former violations as C10_write_parse_regressions); the full grammar is validated on the real code '
+                   'by the statement oracles'},
         'exhaustive': False,
     })
     ctx.assumptions.extend([
@@ -264,7 +264,8 @@ def run(ctx):
         'validate() is not part of the block model (it only logs; its diagnostics are left out of the layer-3 comparison)',
         'str.capitalize() is modelled for first characters that can reach it from the parser (Gen.titleDomain)',
         "well-formedness (Spec/AnnGrammar.lean): lower-case annotation names that are tokens, not 'in-out'/'attribute'; "
-        'list options without "="; dict options key or key=value with distinct keys; distinct annotation names',
+        'list options without "="; dict options key or key=value (value possibly empty) with distinct keys; distinct '
+        'annotation names',
         'white space after the asterisk belongs to the description text (GTK-Doc keeps it), so it is part of the block '
         'model, not of the layout; "" and None descriptions/values are identified',
         'str.lower() is modelled character-wise from the CPython table: names containing U+03A3 (final-sigma rule) are '
